@@ -196,6 +196,11 @@ inductive Kind where
   | sub (a b r : Nat)
   | mul (a b r : Nat)
   | range (a hi lo r : Nat)
+  | catm (ins : List Nat) (r : Nat)      -- ConcatenateMSBF (operands most significant first)
+  | catl (ins : List Nat) (r : Nat)      -- ConcatenateLSBF (`ins` as stored by the constructor: already reversed, MSB first)
+  | rept (i r : Nat)                     -- Repeat
+  | sext (a r : Nat)                     -- SignExtend (both emitted forms)
+  | smul (a b r : Nat)                   -- SignedMul
 deriving Inhabited, Repr
 
 def g (l : List Nat) (i : Nat) : Int := ((l.getD i 0 : Nat) : Int)
@@ -217,12 +222,30 @@ def Kind.leaf (wd : Nat → Nat) : Kind → CLeaf
   | .sub a b r => ⟨[a, b], r, fun l => (Gen.Sub.step ⟨wd r⟩ ⟨⟩ ⟨g l 0, g l 1⟩ ⟨⟩).2.r.getD 0⟩
   | .mul a b r => ⟨[a, b], r, fun l => (Gen.Mul.step ⟨⟩ ⟨⟩ ⟨g l 0, g l 1⟩ ⟨⟩).2.r.getD 0⟩
   | .range a hi lo r => ⟨[a], r, fun l => (Gen.Range.step ⟨hi, lo⟩ ⟨⟩ ⟨g l 0⟩ ⟨⟩).2.r.getD 0⟩
+  | .catm ins r => ⟨ins, r, fun l =>
+      (Gen.ConcatenateMSBF.step ⟨⟩ ⟨⟩ ⟨⟩ ⟨(ins.zip l).map fun p => ((wd p.1 : Int), (p.2 : Int))⟩).2.r.getD 0⟩
+  | .catl ins r => ⟨ins, r, fun l =>
+      (Gen.ConcatenateLSBF.step ⟨⟩ ⟨⟩ ⟨⟩ ⟨(ins.zip l).map fun p => ((wd p.1 : Int), (p.2 : Int))⟩).2.r.getD 0⟩
+  | .rept i r => ⟨[i], r, fun l => (Gen.Repeat.step ⟨wd r⟩ ⟨⟩ ⟨g l 0⟩ ⟨⟩).2.r.getD 0⟩
+  | .sext a r => ⟨[a], r, fun l => (Gen.SignExtend.step ⟨wd a, wd r⟩ ⟨⟩ ⟨g l 0⟩ ⟨⟩).2.r.getD 0⟩
+  | .smul a b r => ⟨[a, b], r, fun l => (Gen.SignedMul.step ⟨wd a, wd b, wd r⟩ ⟨⟩ ⟨g l 0, g l 1⟩ ⟨⟩).2.r.getD 0⟩
 
 /-- unsized decimal literal, as the emitter prints Python ints (same as `C01.lit`) -/
 def lit (n : Nat) : Expr := .num none true n true
 
-/-- the right-hand side written by the `Inline*` function of rtl_generation.py, over the names `nm` of the nets -/
-def Kind.rhs (nm : Nat → String) : Kind → Expr
+/-- `{n1, n2, …}` as harness/vparse.py reads it (right-nested); a single operand is written without braces -/
+def catChain : List String → Expr
+  | [] => lit 0
+  | [n] => .id n
+  | n :: m :: rest => .cat (.id n) (catChain (m :: rest))
+
+/-- `{ {k{a[w-1]}}, a }` as harness/vparse.py reads it (`InlineSignExtend`, result at least as wide as the operand) -/
+def sextExpr (a : String) (aw k : Nat) : Expr :=
+  .cat (.cat1 (.rep k (.cat1 (.idx a (lit (aw - 1)))))) (.id a)
+
+/-- the right-hand side written by the `Inline*` function of rtl_generation.py, over the names `nm` of the nets
+    (`wd`: `InlineRepeat` writes as many copies as the result is wide) -/
+def Kind.rhs (wd : Nat → Nat) (nm : Nat → String) : Kind → Expr
   | .and2 a b _ => .bin "and" (.id (nm a)) (.id (nm b))
   | .or2 a b _ => .bin "or" (.id (nm a)) (.id (nm b))
   | .not1 a _ => .un "not" (.id (nm a))
@@ -237,18 +260,24 @@ def Kind.rhs (nm : Nat → String) : Kind → Expr
   | .sub a b _ => .bin "sub" (.id (nm a)) (.id (nm b))
   | .mul a b _ => .bin "mul" (.id (nm a)) (.id (nm b))
   | .range a hi lo _ => .rng (nm a) hi lo
+  | .catm ins _ => catChain (ins.map nm)
+  | .catl ins _ => catChain (ins.map nm)
+  | .rept i r => catChain (List.replicate (wd r) (nm i))
+  | .sext a r => if wd r < wd a then .id (nm a) else sextExpr (nm a) (wd a) (wd r - wd a)
+  | .smul a b _ => .bin "mul" (.sgn (.id (nm a))) (.sgn (.id (nm b)))
 
 def Kind.out : Kind → Nat
   | .and2 _ _ r => r | .or2 _ _ r => r | .not1 _ r => r | .buf _ r => r | .zext _ r => r | .bit _ _ r => r
   | .mux2 _ _ _ r => r | .const _ r => r | .shl _ _ r => r | .shr _ _ r => r | .addc _ _ _ r => r
-  | .sub _ _ r => r | .mul _ _ r => r | .range _ _ _ r => r
+  | .sub _ _ r => r | .mul _ _ r => r | .range _ _ _ r => r | .catm _ r => r | .catl _ r => r | .rept _ r => r
+  | .sext _ r => r | .smul _ _ r => r
 
 /-- target as written: `InlineConstant` appends the range `[w-1:0]` when the net is wider than one bit -/
 def Kind.lhs (wd : Nat → Nat) (nm : Nat → String) : Kind → LHS
   | .const _ r => if wd r > 1 then .lrng (nm r) (wd r - 1) 0 else .lid (nm r)
   | k => .lid (nm k.out)
 
-def Kind.assign (wd : Nat → Nat) (nm : Nat → String) (k : Kind) : LHS × Expr := (k.lhs wd nm, k.rhs nm)
+def Kind.assign (wd : Nat → Nat) (nm : Nat → String) (k : Kind) : LHS × Expr := (k.lhs wd nm, k.rhs wd nm)
 
 /-- side conditions under which the inline form is proved (Props/C01.lean): selected bit / range inside the operand,
     literals printable as non-negative 32-bit decimals -/
@@ -258,6 +287,11 @@ def Kind.ok (wd : Nat → Nat) : Kind → Prop
   | .shl _ n _ => n < 2 ^ 32
   | .shr _ n _ => n < 2 ^ 32
   | .range a hi lo _ => lo ≤ hi ∧ hi < wd a
+  | .catm ins _ => ins ≠ []
+  | .catl ins _ => ins ≠ []
+  | .rept i r => wd i = 1 ∧ 1 ≤ wd r
+  | .sext a _ => 1 ≤ wd a ∧ wd a - 1 < 2 ^ 32
+  | .smul a b _ => 1 ≤ wd a ∧ 1 ≤ wd b
   | _ => True
 
 /-! ## a flat design and its emitted text (after `V.flatten`) -/
